@@ -4,7 +4,7 @@ set -e
 cd "$(dirname "$0")/.."
 export GOFLAGS=-mod=mod GOPROXY=off
 unset GOSUMDB
-mkdir -p .work evidence replay
+mkdir -p .work evidence replay lean/KM/Gen
 ( cd extract && GOTOOLCHAIN=local go build -o ../.work/extract.bin . )
 mkdir -p .work/gen0 && .work/extract.bin -repo "${VERIF_REPO:-/repo}" -out .work/gen0
 for f in .work/gen0/*.lean; do
